@@ -304,6 +304,14 @@ RingFanIn(u) ==
      sa \in Steps1, sb \in {<<1>>, <<2>>}, sc \in {<<1>>, <<2>>, <<1, 2>>}, d \in {0, 2, 3, 4}, va \in 1..2,
      bk \in {"next", "linear"}, first \in BOOLEAN, ord \in Perms3}
 
+(* a ring closed through an integration adapter with a fixed delay below it: while the delay   *)
+(* clamps to the start the adapter is asked for its oldest time again and again              *)
+RingAvg(u) ==
+  {MkCfg(<<TimeC(sa, 0, FALSE, <<Lk(2, <<Fix(da), Integ(ik)>>)>>), TimeC(sb, 0, FALSE, <<Lk(1, cb)>>)>>,
+         ord, 9, RingZone(da, MaxStep(sa) + MaxStep(sb), TRUE), "ringavg") :
+     sa \in {<<1>>, <<2>>, <<3>>}, sb \in {<<1>>, <<2>>, <<3>>}, da \in {2, 4, 5, 6}, ik \in {"avg", "sum"},
+     cb \in {<<>>, <<Pass>>}, ord \in Perms2}
+
 (* cycles broken by dependency-breaking / pull-counting adapters *)
 RingBreak(u) ==
   {MkCfg(<<TimeC(sa, 0, FALSE, <<Lk(2, ca)>>), TimeC(sb, ob, FALSE, <<Lk(1, cb)>>)>>,
@@ -336,6 +344,7 @@ CfgSpace(f) ==
     [] f = "pullring"   -> PullRing(0)
     [] f = "pullringtail" -> PullRingTail(0)
     [] f = "ringbreak"  -> RingBreak(0)
+    [] f = "ringavg"    -> RingAvg(0)
     [] f = "wsum"       -> WSum(0)
     [] f = "wsumback"   -> WSumBack(0)
     [] f = "pulltwice"  -> PullTwice(0)
@@ -352,6 +361,6 @@ CfgSpace(f) ==
 
 AllFamilies == {"pair", "pairL", "pairXL", "pair3", "chain3t", "chain3p", "fanin2", "fanin1",
                 "fanout", "pullfanout", "diamondt", "diamondp", "pullchain2", "ring2", "ring3",
-                "ring4", "pullring", "pullringtail", "ringbreak", "wsum", "pulltwice", "ring2tail", "fanoutshared", "repeatinteg", "sinkfan", "lateidle", "ringfanin", "fanout3shared", "chain3d", "wsumback", "finisher", "trigger", "staticin"}
+                "ring4", "pullring", "pullringtail", "ringbreak", "wsum", "pulltwice", "ring2tail", "fanoutshared", "repeatinteg", "sinkfan", "lateidle", "ringfanin", "fanout3shared", "chain3d", "wsumback", "finisher", "trigger", "staticin", "ringavg"}
 
 =============================================================================
